@@ -9,8 +9,20 @@
         `pre` = renderer verdicts on the unrepaired blocks, blocks2/warn2 = result of repairing
         the repaired blocks again (`error <kind>` if that raises).
    out (dur): `<blocks> | <warn>...`
-   warn = `<kind>:<block index>`; `bad-op` for a malformed line. -/
+   warn = `<kind>:<block index>`; `bad-op` for a malformed line.
+   in : `round | <n|f|c> <k> <x>`      x written with k decimals: Python round (half-even) / floor / ceil
+   out: `<num/den>`
+   in : `doc | <dobj> ... | <dpack> ... | <duid> ... | <block> ... ; <block> ... ; ...`
+        the whole-document repair (Model/TimingFixDoc.lean) on a small document:
+        dobj  = `<start>,<duration>,<packs>,<tracks>`   lists `+`-separated, `_` = empty, track `s` = silent
+        dpack = `<type>,<channels>,<subPacks>`          duid = `<channel>,<pack>`
+        channels' block lists are separated by `;` (in audioChannelFormat order)
+   out: `pairs <p> ... | ok | <blocks> ; <blocks> ... | <dwarn> ... | <second>`  or  `pairs <p> ... | error <kind>`
+        p = channel list of the object (`+`-separated, `_` empty, `x` = allocator raises),
+        dwarn = `<channel>:<kind>:<block index>`, second = `same` if repairing the result again returns it
+        unchanged without warnings, else `differs`; kind = valueError | assertion | formatRef. -/
 import Earverif.Model.TimingFix
+import Earverif.Model.TimingFixDoc
 import Earverif.Driver.Util
 open Earverif.TimingFix Earverif.Driver
 
@@ -78,7 +90,81 @@ def verdicts (objs : List Obj) (bs : List Block) : String :=
   let os := if objs.isEmpty then [(⟨none, none⟩ : Obj)] else objs
   spaced (os.map fun o => showVerdict (accepted o bs))
 
+def parseList? {α : Type} (p : String → Option α) (s : String) : Option (List α) :=
+  if s == "_" then some [] else (s.splitOn "+").mapM p
+
+def parseTrack? (s : String) : Option (Option Nat) := if s == "s" then some none else s.toNat?.map some
+
+def parseDObj? (s : String) : Option DObj :=
+  match s.splitOn "," with
+  | [a, b, p, t] => do some ⟨← parseORat? a, ← parseORat? b, ← parseList? String.toNat? p, ← parseList? parseTrack? t⟩
+  | _ => none
+
+def parseDPack? (s : String) : Option DPack :=
+  match s.splitOn "," with
+  | [ty, c, sp] => do some ⟨← ty.toNat?, ← parseList? String.toNat? c, ← parseList? String.toNat? sp⟩
+  | _ => none
+
+def parseDUid? (s : String) : Option DUid :=
+  match s.splitOn "," with
+  | [c, p] => do some ⟨← c.toNat?, ← p.toNat?⟩
+  | _ => none
+
+def showTable (t : Table) : String := String.intercalate " ; " (t.map fun bs => spaced (bs.map showBlock))
+
+def showPair (p : Obj × Option (List Nat)) : String :=
+  match p.2 with
+  | none => "x"
+  | some [] => "_"
+  | some cs => String.intercalate "+" (cs.map toString)
+
+def showDocErr : DocErr → String
+  | .block e => showErr e
+  | .formatRef => "formatRef"
+
+/-- every index a small document mentions is in range (the model's accessors default otherwise) -/
+def docInRange (d : Doc) : Bool :=
+  d.objects.all (fun o => o.packs.all (· < d.packs.length) &&
+    o.tracks.all (fun t => match t with | none => true | some u => u < d.uids.length)) &&
+  d.packs.all (fun p => p.channels.all (· < d.channels.length) && p.subPacks.all (· < d.packs.length)) &&
+  d.uids.all (fun u => u.channel < d.channels.length && u.pack < d.packs.length)
+
+def answerDoc (os ps us : List String) (chans : String) : String :=
+  let cs := (chans.splitOn ";").map words
+  let cs := if cs == [[]] then [] else cs
+  match os.mapM parseDObj?, ps.mapM parseDPack?, us.mapM parseDUid?, cs.mapM (·.mapM parseBlock?) with
+  | some objs, some packs, some uids, some table =>
+    let d : Doc := ⟨objs, packs, uids, table⟩
+    if !docInRange d then "bad-op" else
+    let pre := "pairs " ++ spaced (d.pairs.map showPair)
+    match d.fix with
+    | .error e => s!"{pre} | error {showDocErr e}"
+    | .ok (t, ws) =>
+      let second := match docFix d.pairs t with
+        | .ok (t2, ws2) => if t2 == t && ws2.isEmpty then "same" else "differs"
+        | .error _ => "differs"
+      let wss := spaced (ws.map fun w => s!"{w.chan}:{showWarn w.warn}")
+      s!"{pre} | ok | {showTable t} | {wss} | {second}"
+  | _, _, _, _ => "bad-op"
+
+def answerRound (mode k x : String) : String :=
+  match k.toNat?, parseRat? x with
+  | some k, some x =>
+    if mode == "n" then showRat (roundHalfEven k x)
+    else if mode == "f" then showRat (floorDec k x)
+    else if mode == "c" then showRat (ceilDec k x)
+    else "bad-op"
+  | _, _ => "bad-op"
+
 def answer (line : String) : String :=
+  match line.splitOn "|" with
+  | [m, os, ps, us, cs] =>
+    if words m == ["doc"] then answerDoc (words os) (words ps) (words us) cs else "bad-op"
+  | [m, r] =>
+    match words m, words r with
+    | ["round"], [mode, k, x] => answerRound mode k x
+    | _, _ => "bad-op"
+  | _ =>
   match (line.splitOn "|").map words with
   | [[mode], os, bs] =>
     match os.mapM parseObj?, bs.mapM parseBlock? with
